@@ -52,4 +52,5 @@ package jerr
 //@   requires[C01,C07] e != nil && f != nil && len(f.content.data) > 0 && atByte <= len(f.content.data)
 //@   modifies e.includeTrace, e.includeTrace[:]
 //@   ensures len(e.includeTrace) == old(len(e.includeTrace)) + 1
+//@   ensures e.includeTrace.arr == old(e.includeTrace.arr) || fresh(e.includeTrace.arr)
 //@   ensures e.includeTrace[len(e.includeTrace)-1].path == f.name
